@@ -2,7 +2,9 @@
     applies a sequence of Table-API operations (callbacks come from a small
     closed language that the harness renders as Python lambdas), and the
     write / load_delimited round trip through the csv codec model. *)
-From CG3 Require Import Lib.PyZ Lib.Chars Lib.StableSort Lib.Val Model.Csv Model.Table.
+From Coq Require Import QArith.
+From CG3 Require Import Lib.PyZ Lib.Chars Lib.StableSort Lib.Val Model.Csv Model.Table Model.TableLoad.
+Open Scope Z_scope.
 Import ListNotations.
 
 (* row predicates: callbacks of filtered / count *)
@@ -16,7 +18,10 @@ Inductive pred :=
 Fixpoint eval_pred (p : pred) (row : list cell) : bool :=
   match p with
   | PTrue => true
-  | PGt i k => match nth i row CN with CI z => k <? z | CB b => k <? b2z b | _ => false end
+  | PGt i k => match cell_q (nth i row CN) with
+               | Some q => match Qcompare (inject_Z k) q with Lt => true | _ => false end
+               | None => false
+               end
   | PEqC i c => cell_eqb (nth i row CN) c
   | PEqCols i j => cell_eqb (nth i row CN) (nth j row CN)
   | PNot q => negb (eval_pred q row)
@@ -53,7 +58,10 @@ Inductive op :=
 | ODistinct (columns : list str).
 
 Definition cell_val (c : cell) : val :=
-  match c with CI z => VZ z | CS s => VS s | CB b => VB b | CN => VN end.
+  match c with
+  | CI z => VZ z | CS s => VS s | CB b => VB b | CN => VN
+  | CF m e => VL [VS [60; 102; 62]; VZ m; VZ e]      (* tagged "<f>": the float m * 10^e *)
+  end.
 
 Definition table_val (t : table) : val :=
   VL [VL (map VS (hdr t)); VL (map (fun c => VL (map cell_val c)) (cols t)); VZ (Z.of_nat (nrows t))].
@@ -86,7 +94,7 @@ Fixpoint run_ops (ts : list table) (cur : table) (ops : list op) : list val :=
 
 (* Table(header=..., data=columns) *)
 Definition mk_table (hc : list str * list (list cell)) : table :=
-  match set_cols empty_table (fst hc) (snd hc) with Ok t => t | Er _ => empty_table end.
+  match set_cols empty_table (fst hc) (map coerce_col (snd hc)) with Ok t => t | Er _ => empty_table end.
 
 (* the text csv.writer receives for a cell: None is written as the empty string *)
 Definition csv_cell_text (c : cell) : str := match c with CN => [] | _ => cell_str c end.
@@ -113,5 +121,6 @@ Definition run_case (c : case) : val :=
   | CaseRT d hc =>
       let t := mk_table hc in
       let text := fmt_rows d (write_records t) in
-      VL [VS text; vrows (csv_read d text)]
+      VL [VS text; vrows (csv_read d text);
+          match write_then_load d (write_records t) with Ok t' => table_val t' | Er e => VE e end]
   end.
